@@ -242,8 +242,12 @@ def model_check(v, tier):
         with open(cfg, 'w') as f:
             f.write('SPECIFICATION Spec\nCONSTANTS N = 3\n MaxEvents = 3\n MaxCrash = 1\n MaxRestart = 1\n FixF4 = FALSE\n'
                     'INVARIANT TypeOK\nINVARIANT TruthOrLost\n')
-        r = vlib.run_tlc('Replica', cfg, timeout=3000, simulate=200000, depth=60)
+        r = vlib.run_tlc('Replica', cfg, timeout=3000, simulate='num=12500', depth=60, seed=1)
         v.add_tlc('Replica N=3 simulate', r)
+        if r.violated:
+            v.violation(f'design model Replica.tla (N=3, simulation) violates {r.violated}', {'model': False})
+        elif not r.ok and not r.timed_out:
+            raise MachineryFailure(f'Replica.tla N=3 simulate: rc={r.rc} {r.error_text[:2000] or r.stdout[-1500:]}')
 
 
 def judge(v, traces, scs, labels=None):
@@ -257,7 +261,7 @@ def judge(v, traces, scs, labels=None):
         f.write('SPECIFICATION Spec\n')
     r = vlib.run_tlc('ReplicaMon', cfg, workers=8, env={'TRACE_FILE': path}, timeout=2400, heap='8g')
     if not r.ok:
-        raise MachineryFailure(f'ReplicaMon: {r.error_text[:3000]}')
+        raise MachineryFailure(f'ReplicaMon: rc={r.rc} timed_out={r.timed_out} {r.error_text[:3000] or r.stdout[-1500:]}')
     done = {int(json.loads(l)[2:]) for l in r.stdout.splitlines() if l.startswith('"D ')}
     if done != {t['id'] for t in traces}:
         raise MachineryFailure(f'ReplicaMon: {len(done)} traces completed out of {len(traces)}')
